@@ -20,6 +20,7 @@ size_t g_gi, g_gr, g_gc;              /* an arbitrary grain and matrix entry */
 #define NOT_EARLIER(k, dummy) ((size_t)(k) >= g_first || (size_t)(k) >= MODEL->compositions.n || MODEL->compositions.data[k] != g_number)
 #define NOT_LISTED(k, dummy) ((size_t)(k) >= MODEL->compositions.n || MODEL->compositions.data[k] != g_number)
 #include "gen.c"
+#if !defined(VARIANT_PLUME) && !defined(VARIANT_DIST)
 struct Point2 Objects_NaturalCoordinate_get_surface_point__contract(struct Objects_NaturalCoordinate *this_)
 __CPROVER_requires(1) __CPROVER_assigns() __CPROVER_ensures(1)
 ;
@@ -33,14 +34,31 @@ __CPROVER_ensures(this_ == &MODEL->max_depth_surface ==> SAMEL(__CPROVER_return_
 #define MINL (this_->min_depth_surface.constant_value ? this_->min_depth : g_minl)
 #define MAXL (this_->max_depth_surface.constant_value ? this_->max_depth : g_maxl)
 #define INRANGE (depth <= this_->max_depth && depth >= this_->min_depth && depth <= MAXL && depth >= MINL)
+#define SURF_OK (IS_BOOL(this_->min_depth_surface.constant_value) && IS_BOOL(this_->max_depth_surface.constant_value))
+#define MPARAMS struct MTYPE *this_, struct Point3 *position, struct Objects_NaturalCoordinate *nat, double depth, unsigned int composition_number, struct grains grains, double feature_min_depth, double feature_max_depth
+#elif defined(VARIANT_PLUME)
+/* plume models have no depth surfaces: the range is [min depth, max depth] */
+#define INRANGE (depth <= this_->max_depth && depth >= this_->min_depth)
+#define SURF_OK 1
+#define MPARAMS struct MTYPE *this_, struct Point3 *position, struct Objects_NaturalCoordinate *nat, double depth, unsigned int composition_number, struct grains grains, double feature_min_depth, double feature_max_depth
+#else
+/* slab / fault models: the range is in the distance from the plane (fault: |distance| from the centre plane) */
+#ifdef IS_FAULT
+#define DIST __CPROVER_fabs(dist->distance_from_plane)
+#else
+#define DIST (dist->distance_from_plane)
+#endif
+#define INRANGE (DIST <= this_->max_depth && DIST >= this_->min_depth)
+#define SURF_OK 1
+#define MPARAMS struct MTYPE *this_, struct Point3 *position, double depth, unsigned int composition_number, struct grains grains, double feature_min_depth, double feature_max_depth, struct Utilities_PointDistanceFromCurvedPlanes *dist, struct Features_FeatureUtilities_AdditionalParameters *ap
+#endif
 #define RET __CPROVER_return_value
 #define NG (grains.sizes.n)
 #define NGD ((double)NG)
 #define INDEX_OK (g_gi < NG && g_gr < 3 && g_gc < 3)
-struct grains MCONTRACT(struct MTYPE *this_, struct Point3 *position, struct Objects_NaturalCoordinate *nat, double depth, unsigned int composition_number,
-                        struct grains grains, double feature_min_depth, double feature_max_depth)
+struct grains MCONTRACT(MPARAMS)
 __CPROVER_requires(g_model == this_ && g_number == composition_number && wb_thrown == 0)
-__CPROVER_requires(IS_BOOL(this_->min_depth_surface.constant_value) && IS_BOOL(this_->max_depth_surface.constant_value))
+__CPROVER_requires(SURF_OK)
 /* representation invariant established by parse_entries (WBAssertThrow): one matrix and one size per listed composition */
 __CPROVER_requires(this_->compositions.n <= MAXP && this_->rotation_matrices.n == this_->compositions.n && this_->grain_sizes.n == this_->compositions.n)
 __CPROVER_requires(grains.sizes.n <= WB_CAP_vec_double && grains.rotation_matrices.n == grains.sizes.n && grains.sizes.n <= WB_CAP_vec_arr_arr_double_3_3)
@@ -56,8 +74,16 @@ __CPROVER_ensures((!wb_thrown && INRANGE && g_listed && INDEX_OK && this_->grain
 ;
 void h_grains_uniform(void)
 {
-  struct MTYPE m; struct Point3 p; struct Objects_NaturalCoordinate nat; double depth, fmin, fmax; unsigned int number; struct grains g;
+  struct MTYPE m; struct Point3 p; double depth, fmin, fmax; unsigned int number; struct grains g;
+#if !defined(VARIANT_DIST)
+  struct Objects_NaturalCoordinate nat;
+#endif
   HAVOC(g_model); HAVOC(g_minl); HAVOC(g_maxl); HAVOC(g_listed); HAVOC(g_first); HAVOC(g_number); HAVOC(g_gi); HAVOC(g_gr); HAVOC(g_gc);
+#if defined(VARIANT_DIST)
+  struct Utilities_PointDistanceFromCurvedPlanes d; struct Features_FeatureUtilities_AdditionalParameters ap;
+  MFUNC(&m, &p, depth, number, g, fmin, fmax, &d, &ap);
+#else
   MFUNC(&m, &p, &nat, depth, number, g, fmin, fmax);
+#endif
   REACHABLE();
 }
